@@ -568,6 +568,40 @@ example : (CLuaFn.mk "db_module.c" "db_lib" "exec" "db_exec" [] true ["luaCheckV
 example : (CLuaFn.mk "db_module.c" "db_lib" "exec" "db_exec" [] true ["luaCheckView"]
     [⟨"luaCheckView", .gt 0, true, ""⟩]).reachesStep 1 = false := by decide
 
+/-! ## Round 3 — the keyword gate of `db.query` -/
+
+/-- **`db.query`'s only gate admits no writer.**  The keyword rules regenerated from `sqlcheck_is_readonly_sql` /
+`sqlcheck_is_permitted_pragma` let no write-capable leading keyword of SQLite's grammar through — in particular not
+`WITH` (`WITH … INSERT/UPDATE/DELETE`) — and no pragma that sets anything.  (That the *lexer* in front of the rules
+finds the keyword SQLite's tokenizer finds is tested against SQLite itself on every run: harness/c20 sqlcheckdrive.) -/
+theorem sql_readonly_gate_admits_no_writer :
+    (∀ w ∈ SqlGate.writeCapable, w ≠ "PRAGMA" → SqlGate.classifiesReadonly Gen.HostApi.sqlReadonlyFirst w = false) ∧
+    SqlGate.classifiesReadonly Gen.HostApi.sqlReadonlyFirst "PRAGMA" = false ∧
+    (∀ w ∈ SqlGate.settablePragmas, ∀ r ∈ Gen.HostApi.sqlReadonlyPragmas, SqlGate.admits r w = false) ∧
+    "WITH" ∈ SqlGate.writeCapable := by
+  have h1 : SqlGate.firstOK Gen.HostApi.sqlReadonlyFirst = true := by decide +kernel
+  have h2 : SqlGate.pragmasOK Gen.HostApi.sqlReadonlyPragmas = true := by decide +kernel
+  simp only [SqlGate.firstOK, Bool.and_eq_true, List.all_eq_true, Bool.not_eq_true'] at h1
+  simp only [SqlGate.pragmasOK, List.all_eq_true, Bool.not_eq_true'] at h2
+  refine ⟨?_, h1.2, h2, by decide⟩
+  intro w hw hne
+  exact h1.1.1 w (List.mem_filter.mpr ⟨hw, by simpa using hne⟩)
+
+/-- Test on sample values: the rule of the seeded change (`WITH` classified read-only) is rejected; the current
+shape (`SELECT` prefix + pragma table) is accepted. -/
+example : SqlGate.firstOK [("SELECT", "prefix"), ("WITH", "exact"), ("PRAGMA", "pragma")] = false := by decide +kernel
+example : SqlGate.firstOK [("SELECT", "prefix"), ("PRAGMA", "pragma")] = true := by decide +kernel
+example : SqlGate.pragmasOK [("TABLE_INFO", "prefix"), ("USER_VERSION", "exact")] = false := by decide +kernel
+
+/-- The registered Lua functions that compile SQL (`sqlite3_prepare*`) and what stands in front of it: `db.exec`
+refuses in a view (`luaCheckView`, `c_view_guard_effective`), `db.query` has only the keyword gate above, and
+`db.prepare` compiles statements that are executed by `pstmt:exec` (view guard) or `pstmt:query`
+(`sqlite3_stmt_readonly`, `c_sql_execution_guarded`). -/
+theorem c_prepare_gates :
+    Gen.HostApi.cPrepareGates =
+      [("db_lib.exec", "luaCheckView,sqlcheck_is_permitted_sql"), ("db_lib.query", "sqlcheck_is_readonly_sql"),
+       ("db_lib.prepare", "sqlcheck_is_permitted_sql")] := rfl
+
 /-! ## Round 3 — statesql.go is analysed -/
 
 /-- The only `sql.Open` reachable from the analysed entry points is `readOnlyConn`'s, through the query driver, with
